@@ -24,6 +24,8 @@ def run(ctx):
     decoder_rule(ctx)
     suffix_rule(ctx)
     accessor_rule(ctx)
+    from .c14 import stats_every_record
+    stats_every_record(ctx, "C06.A")
     c05.ordinal_rule(ctx, "C06.N")
     c05.reader_ownership(ctx, "C06.N")
     siblings_rule(ctx)
